@@ -829,22 +829,27 @@ func (ds *DataStoreSet) skipTableUpdate(store *DataStore, table TableName) (bool
 func (ds *DataStoreSet) updateTimeperiodsData(ctx context.Context, dataOffset int, store *DataStore, res ResultSet, columns ColumnList) (err error) {
 	changedTimeperiods := make(map[string]bool)
 
+	// the rows are read by clients meanwhile: keep the table locked until all of them are updated
 	store.lock.Lock()
 	data := store.data
 	now := currentUnixTime()
 	nameCol := store.GetColumn("name")
-	store.lock.Unlock()
-
 	for i := range res {
 		row := res[i]
+		if i >= len(data) {
+			break
+		}
 		if data[i].checkChangedIntValues(dataOffset, row, columns) {
 			changedTimeperiods[data[i].GetString(nameCol)] = true
 		}
 		err = data[i].UpdateValues(dataOffset, row, columns, now)
 		if err != nil {
+			store.lock.Unlock()
+
 			return err
 		}
 	}
+	store.lock.Unlock()
 
 	// Update hosts and services with those changed timeperiods
 	for name, state := range changedTimeperiods {
